@@ -534,7 +534,6 @@ func sortedKeys(m map[string]int64) []string {
 	return out
 }
 
-
 // runBurst: B ticks are released in one burst while no request finishes and no
 // result is consumed. At the following quiescent state exactly min(B, max)
 // hits must have started: free capacity is used without waiting for another
